@@ -459,5 +459,214 @@ class CoerceArguments(Contract):
                 ('each_definition_contributes_its_own_outcome', lookup(V.ditems(r), V.fst(nth(defs, self.j0))) == arg_entry(c0))]
 
 
-CONTRACTS = [ArgumentCoercer(), CoerceArguments(), IsMissingVariable(), NullAndVariableWrapper(), LiteralNonNull(), LiteralDirectives(), LiteralInputFieldValue()]
+
+# ---- get_literal_coercer: the literal coercer chain mirrors the declared type, wrapper by wrapper
+from specs import inputs as SI                                  # noqa: E402
+from pyvc.symexec import fun_id                                 # noqa: E402
+from pyvc.builtins import partial_bind                          # noqa: E402
+
+K_LLIST, K_LNONNULL = L + 'list_coercer.py::list_coercer', L + 'non_null_coercer.py::non_null_coercer'
+LEAF_LITERAL_CLASSES = [c for c in T.subclasses('GraphQLType') if T.resolve_attr(c, 'literal_coercer') is not None]
+
+
+def lit_wrapper_of(t):
+    """the wrapper get_literal_coercer records for a wrapping type: the list coercer told whether ITS items are non-null, or the non-null coercer"""
+    w = SI.wrapped_of(t)
+    return z3.If(SI.is_list_t(t), V.Fun(fun_id(K_LLIST), partial_bind(VL.nil, [], [('is_non_null_item_type', V.Bool(SI.is_non_null_type(w)))])),
+                 V.Fun(fun_id(K_LNONNULL), VL.nil))
+
+
+def lit_wrap(w, c):
+    """partial(w, inner_coercer=c)"""
+    return V.Fun(V.fname(w), partial_bind(V.fbound(w), [], [('inner_coercer', c)]))
+
+
+LitT = z3.RecFunction('LiteralCoercerOfType', V, V)
+TyWfL = z3.RecFunction('TyWfLiteral', V, BoolS)
+_lt = z3.Const('lt_', V)
+_litT = lambda t: z3.If(SI.is_wrapping_t(t), lit_wrap(lit_wrapper_of(t), LitT(SI.wrapped_of(t))), attr0(t, 'literal_coercer'))
+_tywfl = lambda t: z3.And(SI.cls_is(t, 'GraphQLType'), V.oref(t) >= 0,
+    z3.If(SI.is_wrapping_t(t),
+          z3.And(z3.Or(SI.is_list_t(t), SI.is_non_null_type(t)),
+                 z3.Or(SI.cls_is(attr0(t, 'gql_type'), 'GraphQLType'),
+                       z3.And(V.is_Str(attr0(t, 'gql_type')), SI.cls_is(attr0(t, '_schema'), 'GraphQLSchema'), V.is_Dict(attr0(attr0(t, '_schema'), 'type_definitions')),
+                              SI.find_type(attr0(t, '_schema'), attr0(t, 'gql_type')) != V.Missing)),
+                 TyWfL(SI.wrapped_of(t))),
+          z3.And(z3.Or(*[z3.And(V.is_Obj(t), V.ocls(t) == T.cid[c]) for c in LEAF_LITERAL_CLASSES]), V.is_Fun(attr0(t, 'literal_coercer')))))
+z3.RecAddDefinition(LitT, [_lt], _litT(_lt))
+z3.RecAddDefinition(TyWfL, [_lt], _tywfl(_lt))
+UNFOLD['LiteralCoercerOfType'] = _litT
+UNFOLD['TyWfLiteral'] = _tywfl
+
+RebL = z3.RecFunction('RebuildLiteral', VL, V, V)       # apply the recorded wrappers from the last one outwards
+_lws = z3.Const('lws_', VL)
+_lc = z3.Const('lc_', V)
+_rebl = lambda ws, c: z3.If(length(ws) <= 0, c, RebL(take(ws, length(ws) - 1), lit_wrap(nth(ws, length(ws) - 1), c)))
+z3.RecAddDefinition(RebL, [_lws, _lc], _rebl(_lws, _lc))
+UNFOLD['RebuildLiteral'] = _rebl
+AllLitWrappers = ForallList('literal_wrapper', lambda w: V.is_Fun(w))
+
+
+class GetLiteralCoercer(Contract):
+    """get_literal_coercer(T) is, wrapper by wrapper, the chain the declared type prescribes: a list layer (told whether its ITEMS are non-null)
+    for every list wrapper, a non-null layer for every non-null wrapper, in the type's own nesting order, around the named type's baked
+    literal coercer"""
+    key = L + 'compute.py::get_literal_coercer'
+    property_ids = ('C05',)
+    params = ['graphql_type']
+
+    def args(self, en, names):
+        self.A = super().args(en, names)
+        return self.A
+
+    def pre(self, A, st):
+        return [('type_wf', TyWfL(A['graphql_type']))]
+
+    def _inv0(self, en, st, k, st0):
+        ws = V.items(en.read(st.env['wrapper_coercers'], st))
+        inner = st.env['inner_type']
+        return {'cursor_wf': TyWfL(inner), 'wrappers': AllLitWrappers(ws), 'rebuild': RebL(ws, LitT(inner)) == LitT(self.A['graphql_type'])}
+
+    def _inv1(self, en, st, k, st0):
+        ws = V.items(en.read(st.env['wrapper_coercers'], st))
+        c = en.read(st.env['coercer'], st)
+        n = length(ws)
+        return {'closure': V.is_Fun(c), 'rebuild': RebL(take(ws, n - k), c) == LitT(self.A['graphql_type'])}
+
+    @property
+    def loops(self):
+        return {0: LoopContract(self._inv0), 1: LoopContract(self._inv1)}
+
+    def post(self, A, st0, out):
+        if out.kind == 'raise':
+            return never_raises(out)
+        return [('mirrors_the_declared_type', out.value == LitT(A['graphql_type']))]
+
+
+
+# ---- literal leaf coercers (bodies under the null / variable wrapper)
+ScLit_raises = z3.Function('ScalarParseLiteralRaises', V, V, BoolS)     # (scalar type, value node): user / builtin parse_literal (builtin ones: C10)
+ScLit_val = z3.Function('ScalarParseLiteralValue', V, V, V)
+
+
+class LiteralScalarBody(Contract):
+    """literal scalar_coercer: the scalar's parse_literal decides; a raise or UNDEFINED is an invalid value, never an exception, never an error list"""
+    key = L + 'scalar_coercer.py::scalar_coercer'
+    decorators = ['null_and_variable_coercer_wrapper']
+    property_ids = ('C05',)
+    params = ['parent_node', 'node', 'ctx', 'scalar_type', 'variables', 'path']
+
+    def args(self, en, names):
+        self.A = super().args(en, names)
+        return self.A
+
+    def pre(self, A, st):
+        t = A['scalar_type']
+        return [('scalar_type', z3.And(exact(t, 'GraphQLScalarType'), V.oref(t) >= 0)), ('node', z3.And(inst(A['node'], 'ValueNode'), ast_node(A['node'])))]
+
+    def getattr_hook(self, en, st, v, attr):
+        if attr == 'parse_literal' and z3.eq(v, self.A['scalar_type']):
+            def parse(en, s, a, kw, t=v):
+                n = en.read(a[0], s)
+                e = V.Obj(fresh('ecls', IntS), fresh('eref', IntS))
+                return en.branches(s, [(z3.Not(ScLit_raises(t, n)), ScLit_val(t, n)), (z3.And(ScLit_raises(t, n), en.is_instance_of(e, 'Exception')), Raise(e))])
+            return [(st, PyFunc('parse_literal', parse))]
+        return None
+
+    def post(self, A, st0, out):
+        if out.kind == 'raise':
+            return never_raises(out)
+        t, n, r = A['scalar_type'], A['node'], out.value
+        bad = z3.Or(ScLit_raises(t, n), ScLit_val(t, n) == V.Undef)
+        return [('parse_literal_decides', z3.And(exact(r, 'CoercionResult'), cr_ok(out.st, r), cr_value(out.st, r) == z3.If(bad, V.Undef, ScLit_val(t, n))))]
+
+
+EVLit_raises = z3.Function('EnumValueLiteralHookRaises', V, V, BoolS)   # (enum value definition, name): the value's own hook chain
+EVLit_val = z3.Function('EnumValueLiteralHookValue', V, V, V)
+AllEnumValues = ForallList('enum_value_entry', lambda p: z3.And(V.is_Pair(p), exact(V.snd(p), 'GraphQLEnumValue'), V.oref(V.snd(p)) >= 0, V.is_Fun(attr0(V.snd(p), 'literal_coercer'))))
+
+
+class LiteralEnumBody(Contract):
+    """literal enum_coercer: only an enum literal naming a declared value is accepted; its value goes through THAT value's hook chain once"""
+    key = L + 'enum_coercer.py::enum_coercer'
+    decorators = ['null_and_variable_coercer_wrapper']
+    property_ids = ('C05', 'C13')
+    params = ['parent_node', 'node', 'ctx', 'enum_type', 'variables', 'path']
+
+    def args(self, en, names):
+        self.A = super().args(en, names)
+        return self.A
+
+    def pre(self, A, st):
+        t, n = A['enum_type'], A['node']
+        return [('enum_type', z3.And(exact(t, 'GraphQLEnumType'), V.oref(t) >= 0, V.is_Dict(attr0(t, '_value_map')), AllEnumValues(V.ditems(attr0(t, '_value_map'))))),
+                ('node', z3.And(inst(n, 'ValueNode'), ast_node(n), z3.Implies(exact(n, 'EnumValueNode'), V.is_Str(attr0(n, 'value')))))]
+
+    def ghost0(self, A):
+        return {'hook_calls': z3.IntVal(0), 'hook_args': V.Missing}
+
+    def call_model(self, en, st, f, a, kw):
+        f = z3.simplify(f)
+        if z3.is_app(f) and f.decl().kind() == z3.Z3_OP_SELECT and f.arg(0).eq(field0('literal_coercer')):
+            ev = f.arg(1)
+            name = en.read(a[1], st)
+            st = st.put_ghost('hook_calls', st.ghost['hook_calls'] + 1).put_ghost('hook_args', V.Tuple(mklist(ev, *[en.read(x, st) for x in a])))
+            e = V.Obj(fresh('ecls', IntS), fresh('eref', IntS))
+            return en.branches(st, [(z3.Not(EVLit_raises(ev, name)), EVLit_val(ev, name)),
+                                    (z3.And(EVLit_raises(ev, name), en.is_instance_of(e, 'Exception'), z3.Not(en.is_instance_of(e, 'KeyError'))), Raise(e))])
+        return None
+
+    def post(self, A, st0, out):
+        t, n, g = A['enum_type'], A['node'], out.st.ghost
+        name = attr0(n, 'value')
+        ev = lookup(V.ditems(attr0(t, '_value_map')), name)
+        known = z3.And(exact(n, 'EnumValueNode'), ev != V.Missing)
+        if out.kind == 'raise':
+            return [('only_the_value_hook_fails', z3.And(known, EVLit_raises(ev, name)))]
+        r = out.value
+        return [('only_declared_enum_literals', z3.Implies(z3.Not(known), z3.And(exact(r, 'CoercionResult'), cr_value(out.st, r) == V.Undef, g['hook_calls'] == 0))),
+                ('value_through_its_own_hooks_once', z3.Implies(known, z3.And(exact(r, 'CoercionResult'), cr_ok(out.st, r), cr_value(out.st, r) == EVLit_val(ev, name),
+                                                                              g['hook_calls'] == 1, g['hook_args'] == V.Tuple(mklist(ev, A['parent_node'], name, A['ctx'])))))]
+
+
+class LiteralListItem(Contract):
+    """list_item_coercer: a variable item without runtime value is null (invalid for non-null items); any other item goes to the inner coercer with
+    the same variables and path"""
+    key = L + 'list_coercer.py::list_item_coercer'
+    property_ids = ('C05',)
+    params = ['parent_node', 'item_node', 'ctx', 'is_non_null_item_type', 'inner_coercer', 'variables', 'path']
+
+    def args(self, en, names):
+        self.A = super().args(en, names)
+        self.res = fresh('inner_result')
+        return self.A
+
+    def pre(self, A, st):
+        n = A['item_node']
+        return [('item', z3.And(inst(n, 'ValueNode'), ast_node(n), variable_node_wf(n))), ('variables', variables_ok(A['variables'])),
+                ('flag', V.is_Bool(A['is_non_null_item_type'])), ('inner', V.is_Fun(A['inner_coercer']))]
+
+    def ghost0(self, A):
+        return {'inner_calls': z3.IntVal(0), 'inner_args': V.Missing}
+
+    def call_model(self, en, st, f, a, kw):
+        if z3.eq(f, self.A['inner_coercer']):
+            shape = len(a) == 3 and set(kw) == {'variables', 'path'}
+            rec = V.Tuple(mklist(*[en.read(x, st) for x in a], en.read(kw['variables'], st), en.read(kw['path'], st))) if shape else V.Missing
+            return [(st.put_ghost('inner_calls', st.ghost['inner_calls'] + 1).put_ghost('inner_args', rec), self.res)]
+        return None
+
+    def post(self, A, st0, out):
+        if out.kind == 'raise':
+            return never_raises(out)
+        n, vs, g, r = A['item_node'], A['variables'], out.st.ghost, out.value
+        miss = missing_variable(n, vs)
+        return [('missing_variable_item_non_null_is_invalid', z3.Implies(z3.And(miss, V.b(A['is_non_null_item_type'])), z3.And(r == V.Undef, g['inner_calls'] == 0))),
+                ('missing_variable_item_nullable_is_null', z3.Implies(z3.And(miss, z3.Not(V.b(A['is_non_null_item_type']))),
+                                                                      z3.And(exact(r, 'CoercionResult'), cr_ok(out.st, r), cr_value(out.st, r) == V.None_, g['inner_calls'] == 0))),
+                ('other_items_go_to_the_inner_coercer', z3.Implies(z3.Not(miss), z3.And(r == self.res, g['inner_calls'] == 1,
+                                                                                         g['inner_args'] == V.Tuple(mklist(A['parent_node'], n, A['ctx'], vs, A['path'])))))]
+
+
+CONTRACTS = [ArgumentCoercer(), CoerceArguments(), GetLiteralCoercer(), LiteralScalarBody(), LiteralEnumBody(), LiteralListItem(), IsMissingVariable(), NullAndVariableWrapper(), LiteralNonNull(), LiteralDirectives(), LiteralInputFieldValue()]
 LEMMAS = []
